@@ -5,7 +5,7 @@ import zcklib as Z
 from props import filegen as FG
 
 PROP = 'C14'
-MODULES = ['ZckModel.Props.C14']
+MODULES = ['ZckModel.Props.C14', 'ZckModel.Props.C14Exact']
 ASSUMPTIONS = [
     "files are valid (written by the reference writer and, in thorough, by the library itself); each request passes a buffer of the "
     "chunk's declared size, as zck_gen_zdict and unzck --dict do",
